@@ -86,6 +86,14 @@ package pool
 //@ func (*bitmapSectorAllocator).allocateAt
 //@   props C15
 //@   ensures allocation-at-a-free-word-succeeds: r2 == nil
+// Every byte a write reports as written lies inside the file afterwards, also
+// when the write was split into several device writes and a later one failed
+// (C15: what was written can be read back).
+//@ func (*blockDeviceBackedFile).WriteAt
+//@   props C15
+//@   ensures bytes-reported-as-written-lie-inside-the-file: r0 > 0 ==> f.sizeBytes >= off + r0
+//@   ensures nothing-is-written-at-a-negative-offset: off < 0 ==> r0 == 0 && r1 != nil
+
 // Giving a run of sectors back walks over every bitmap word the run touches:
 // either the run ends inside its first word, or the walk ends exactly at the
 // end of the run (word index * 64 + sectors still to free in that word == end
